@@ -185,6 +185,25 @@ func runC15(h *Harness) {
 			os.WriteFile(in.file, in.loc.Versions[1].Bytes, 0600)
 		}
 	}
+	// "independently of other validator instances in the same process": from now on the origin of ONE instance accepts
+	// connections and never answers (a black hole; nothing in the repository bounds a download). That instance is lost
+	// to its own origin; the OTHERS must go on refreshing theirs and enforce what their origins publish.
+	var blackHoled *inst
+	if nn > 1 && tp.Chance(1, 3) {
+		cand := insts[tp.Int(len(insts))]
+		if cand.source != "file" {
+			blackHoled = cand
+			cand.loc.State, cand.loc.StallFor = oStall, 200*time.Hour
+			// (its own later ticks queue up behind the cycle that hangs in the download: that is this instance's
+			// trouble, not a deadlock of the others)
+			if h.S.noDeadlockNode == nil {
+				h.S.noDeadlockNode = map[string]bool{}
+			}
+			h.S.noDeadlockNode[cand.n.Name] = true
+			sc["black_holed"] = cand.n.Name
+			h.R.NonTrivial = true
+		}
+	}
 	tpub := h.S.Now()
 	// in half of the runs a handshake that brings a NEW distribution point arrives while a refresh cycle is running
 	// (the repository's map is written while the updater walks it)
@@ -223,6 +242,9 @@ func runC15(h *Harness) {
 	h.Settle(3*maxIvl + 2*time.Minute)
 	end := h.S.Now()
 	for _, in := range insts {
+		if in == blackHoled {
+			continue // its origin never answers again: nothing is promised for it
+		}
 		// (b) the newly revoked serial is rejected
 		cdp := []string{}
 		if in.source == "cdp" {
